@@ -87,6 +87,9 @@ func runC05(ctx *Ctx) {
 		if ctx.Want(700000 + k) {
 			c06Unfamiliar(ctx, 700000+k, k)
 		}
+		if ctx.Want(700010 + k) {
+			c05AcrossEndpoints(ctx, 700010+k, k)
+		}
 	}
 	E := int64(store.ExpireNonce)
 	idx := 0
